@@ -398,6 +398,16 @@ class CheckedCoverageInstrumentation(python3_11.CheckedCoverageInstrumentation):
         instr_index: int,
         instr_original_index: int,
     ) -> None:
+        # An inlined comprehension saves its iteration variable with LOAD_FAST_AND_CLEAR and
+        # restores it with STORE_FAST afterwards.  The variable may be unbound at both points,
+        # and loading an unbound local for the probe crashes the interpreter.  The compiler
+        # reorders the restoring stores, so every store to such a variable is treated alike.
+        value: InstrumentationArgument = InstrumentationFastLoad(name=instr.arg)  # type: ignore[arg-type]
+        if instr.name == "LOAD_FAST_AND_CLEAR" or (
+            instr.name == "STORE_FAST" and instr.arg in self._cleared_fast_names(cfg)
+        ):
+            value = InstrumentationConstantLoad(value=None)
+
         instructions = self.instructions_generator.generate_instructions(
             InstrumentationSetupAction.NO_ACTION,
             InstrumentationMethodCall(
@@ -411,7 +421,7 @@ class CheckedCoverageInstrumentation(python3_11.CheckedCoverageInstrumentation):
                     InstrumentationConstantLoad(value=instr.lineno),
                     InstrumentationConstantLoad(value=instr_original_index),
                     InstrumentationConstantLoad(value=instr.arg),  # type: ignore[arg-type]
-                    InstrumentationFastLoad(name=instr.arg),  # type: ignore[arg-type]
+                    value,
                 ),
             ),
             instr.lineno,
@@ -425,6 +435,25 @@ class CheckedCoverageInstrumentation(python3_11.CheckedCoverageInstrumentation):
             case "LOAD_FAST" | "LOAD_FAST_CHECK" | "STORE_FAST":
                 # Instrumentation after the original instruction
                 node.basic_block[after(instr_index)] = instructions
+
+    @staticmethod
+    def _cleared_fast_names(cfg: cf.CFG) -> set[str]:
+        """Provides the locals that some LOAD_FAST_AND_CLEAR of the code object clears.
+
+        Args:
+            cfg: The control-flow graph of the code object
+
+        Returns:
+            The names of these local variables
+        """
+        return {
+            instr.arg
+            for block in cfg.bytecode_cfg
+            for instr in block
+            if isinstance(instr, Instr)
+            and instr.name == "LOAD_FAST_AND_CLEAR"
+            and isinstance(instr.arg, str)
+        }
 
     def visit_attr_access(  # noqa: D102, PLR0917
         self,
